@@ -64,6 +64,12 @@ impl Hash for Ep {
         self.0.hash(h)
     }
 }
+// (not asked for by the crate today; lets an implementation that logs endpoints build against this driver)
+impl std::fmt::Display for Ep {
+    fn fmt(&self, f: &mut std::fmt::Formatter<'_>) -> std::fmt::Result {
+        write!(f, "peer")
+    }
+}
 
 // ---------------------------------------------------------------------------
 // Fake clock (feature `fakeclock`): thread-local milliseconds owned by the harness.
